@@ -8,6 +8,8 @@ import KotoVerif.Model.Match
 namespace KotoVerif
 namespace Match
 
+variable {C : Cfg}
+
 theorem apply_append (ρ : Env) (β₁ β₂ : Writes) : ρ.apply (β₁ ++ β₂) = (ρ.apply β₁).apply β₂ := by
   induction β₁ generalizing ρ with
   | nil => rfl
@@ -122,7 +124,7 @@ theorem view_index_neg {v : Val} {xs sl} (h : view v = some (xs, sl)) (k : Nat) 
   | _ => simp [view] at h
 
 theorem view_sliceFrom {v : Val} {xs sl} (h : view v = some (xs, sl)) (k : Nat) (hk : k ≤ xs.length) :
-    sliceFrom v (k : Int) = .ok (sl k xs.length) := by
+    sliceFrom C v (k : Int) = .ok (sl k xs.length) := by
   cases v with
   | tuple ys =>
     simp [view] at h; obtain ⟨rfl, rfl⟩ := h
@@ -140,7 +142,7 @@ theorem view_sliceFrom {v : Val} {xs sl} (h : view v = some (xs, sl)) (k : Nat) 
   | _ => simp [view] at h
 
 theorem view_sliceTo {v : Val} {xs sl} (h : view v = some (xs, sl)) (k : Nat) (hk0 : 0 < k)
-    (hk : k ≤ xs.length) : sliceTo v (-(k : Int)) = .ok (sl 0 (xs.length - k)) := by
+    (hk : k ≤ xs.length) : sliceTo C v (-(k : Int)) = .ok (sl 0 (xs.length - k)) := by
   cases v with
   | tuple ys =>
     simp [view] at h; obtain ⟨rfl, rfl⟩ := h
@@ -180,9 +182,9 @@ theorem Reads.container {a : Acc} {v : Val} (h : Reads a v) (ρ : Env) :
 /-! ### map entries -/
 
 theorem mEnts_spec (es : List Ent) (v : Val) (ρ : Env) :
-    (∀ β, DeclEnts es v β → mEnts es (.tmp v) ρ = .ok (ρ.apply β)) ∧
-    (∀ ρ', mEnts es (.tmp v) ρ = .ok ρ' → ∃ β, DeclEnts es v β ∧ ρ' = ρ.apply β) ∧
-    (∀ ρ', mEnts es (.tmp v) ρ ≠ .done ρ') := by
+    (∀ β, DeclEnts es v β → mEnts C es (.tmp v) ρ = .ok (ρ.apply β)) ∧
+    (∀ ρ', mEnts C es (.tmp v) ρ = .ok ρ' → ∃ β, DeclEnts es v β ∧ ρ' = ρ.apply β) ∧
+    (∀ ρ', mEnts C es (.tmp v) ρ ≠ .done ρ') := by
   induction es generalizing ρ with
   | nil => simp [mEnts, DeclEnts]
   | cons e es ih =>
@@ -213,7 +215,7 @@ theorem mEnts_spec (es : List Ent) (v : Val) (ρ : Env) :
               simp only [hb] at h
               obtain ⟨β', hd, rfl⟩ := (ih (ρ.set n x)).2.1 ρ' (by simpa using h)
               exact ⟨(n, x) :: β', ⟨m, x, β', rfl, hl, ht, hd, by simp [hb]⟩, rfl⟩
-      | _ => simp [mEnts, Src.rd, tryAccess] at h
+      | _ => cases hc : C.accessFalls <;> simp [mEnts, Src.rd, tryAccess, hc] at h
     · intro ρ' h
       cases v with
       | map m =>
@@ -229,22 +231,22 @@ theorem mEnts_spec (es : List Ent) (v : Val) (ρ : Env) :
             cases hb : e.bind with
             | none => simp only [hb] at h; exact (ih ρ).2.2 ρ' (by simpa using h)
             | some n => simp only [hb] at h; exact (ih (ρ.set n x)).2.2 ρ' (by simpa using h)
-      | _ => simp [mEnts, Src.rd, tryAccess] at h
+      | _ => cases hc : C.accessFalls <;> simp [mEnts, Src.rd, tryAccess, hc] at h
 
 /-! ### the correctness statement (last alternative) -/
 
-def Spec (F : FloatOps) (p : Pat) : Prop :=
+def Spec (F : FloatOps) (C : Cfg) (p : Pat) : Prop :=
   ∀ (il : Bool) (a : Acc) (ρ : Env) (v : Val), Reads a v → noRange v = true →
-    (∀ β, Decl F p v β → mPat F true p il a ρ = .ok (ρ.apply β)) ∧
-    (∀ ρ', mPat F true p il a ρ = .ok ρ' → ∃ β, Decl F p v β ∧ ρ' = ρ.apply β) ∧
-    (∀ ρ', mPat F true p il a ρ ≠ .done ρ')
+    (∀ β, Decl F p v β → mPat F C true p il a ρ = .ok (ρ.apply β)) ∧
+    (∀ ρ', mPat F C true p il a ρ = .ok ρ' → ∃ β, Decl F p v β ∧ ρ' = ρ.apply β) ∧
+    (∀ ρ', mPat F C true p il a ρ ≠ .done ρ')
 
-def SpecL (F : FloatOps) (ps : List Pat) : Prop :=
+def SpecL (F : FloatOps) (C : Cfg) (ps : List Pat) : Prop :=
   ∀ (c : Val) (i : Int) (lf : Bool) (ρ : Env) (ys : List Val), ys.length = ps.length →
     (∀ j (h : j < ys.length), tempIndex c (i + (j : Int)) = .ok ys[j]) → noRangeL ys = true →
-    (∀ β, DeclAll F ps ys β → mPats F true ps (.tmp c) i lf ρ = .ok (ρ.apply β)) ∧
-    (∀ ρ', mPats F true ps (.tmp c) i lf ρ = .ok ρ' → ∃ β, DeclAll F ps ys β ∧ ρ' = ρ.apply β) ∧
-    (∀ ρ', mPats F true ps (.tmp c) i lf ρ ≠ .done ρ')
+    (∀ β, DeclAll F ps ys β → mPats F C true ps (.tmp c) i lf ρ = .ok (ρ.apply β)) ∧
+    (∀ ρ', mPats F C true ps (.tmp c) i lf ρ = .ok ρ' → ∃ β, DeclAll F ps ys β ∧ ρ' = ρ.apply β) ∧
+    (∀ ρ', mPats F C true ps (.tmp c) i lf ρ ≠ .done ρ')
 
 theorem DeclAll_length {F : FloatOps} : ∀ (ps : List Pat) (ys : List Val) (β : Writes),
     DeclAll F ps ys β → ys.length = ps.length
@@ -254,17 +256,17 @@ theorem DeclAll_length {F : FloatOps} : ∀ (ps : List Pat) (ys : List Val) (β 
     obtain ⟨y, ys', β₁, β₂, rfl, _, h2, _⟩ := h
     simp [DeclAll_length ps ys' β₂ h2]
 
-theorem spec_lit (F : FloatOps) (l : Lit) : Spec F (.lit l) := by
+theorem spec_lit (F : FloatOps) (l : Lit) : Spec F C (.lit l) := by
   intro il a ρ v hr _
   simp only [mPat, hr.fetch, Decl]
   cases h : litEq F l v <;> simp
 
-theorem spec_id (F : FloatOps) (x : Name) (ty : Option Ty) : Spec F (.id x ty) := by
+theorem spec_id (F : FloatOps) (x : Name) (ty : Option Ty) : Spec F C (.id x ty) := by
   intro il a ρ v hr _
   simp only [mPat, hr.fetch, Decl]
   cases h : tyFail ty v <;> simp
 
-theorem spec_wild (F : FloatOps) (ty : Option Ty) : Spec F (.wild ty) := by
+theorem spec_wild (F : FloatOps) (ty : Option Ty) : Spec F C (.wild ty) := by
   intro il a ρ v hr _
   cases ty with
   | none => simp [mPat, Decl, tyFail]
@@ -272,9 +274,9 @@ theorem spec_wild (F : FloatOps) (ty : Option Ty) : Spec F (.wild ty) := by
     simp only [mPat, hr.fetch, Decl, tyFail]
     cases h : tyOk t v <;> simp
 
-theorem spec_map (F : FloatOps) (es : List Ent) (ty : Option Ty) : Spec F (.map es ty) := by
+theorem spec_map (F : FloatOps) (es : List Ent) (ty : Option Ty) : Spec F C (.map es ty) := by
   intro il a ρ v hr _
-  have hm := mEnts_spec es v ρ
+  have hm := mEnts_spec (C := C) es v ρ
   simp only [mPat, hr.container, Decl, Src.rd]
   by_cases h : tyFail ty v = true
   · simp [h]
@@ -283,7 +285,7 @@ theorem spec_map (F : FloatOps) (es : List Ent) (ty : Option Ty) : Spec F (.map 
     refine ⟨?_, ?_, ?_⟩
     · intro β hd; rw [hm.1 β hd]; simp
     · intro ρ' h'
-      cases hr' : mEnts es (.tmp v) ρ with
+      cases hr' : mEnts C es (.tmp v) ρ with
       | ok ρ1 =>
         rw [hr'] at h'; simp at h'; subst h'
         exact hm.2.1 _ hr'
@@ -291,20 +293,20 @@ theorem spec_map (F : FloatOps) (es : List Ent) (ty : Option Ty) : Spec F (.map 
       | fail ρ1 => rw [hr'] at h'; simp at h'
       | err e => rw [hr'] at h'; simp at h'
     · intro ρ' h'
-      cases hr' : mEnts es (.tmp v) ρ with
+      cases hr' : mEnts C es (.tmp v) ρ with
       | ok ρ1 => rw [hr'] at h'; simp at h'
       | done ρ1 => exact absurd hr' (hm.2.2 _)
       | fail ρ1 => rw [hr'] at h'; simp at h'
       | err e => rw [hr'] at h'; simp at h'
 
-theorem specL_nil (F : FloatOps) : SpecL F [] := by
+theorem specL_nil (F : FloatOps) : SpecL F C [] := by
   intro c i lf ρ ys hlen _ _
   have : ys = [] := by simpa using hlen
   subst this
   simp [mPats, DeclAll]
 
-theorem specL_cons (F : FloatOps) (p : Pat) (ps : List Pat) (hp : Spec F p) (hps : SpecL F ps) :
-    SpecL F (p :: ps) := by
+theorem specL_cons (F : FloatOps) (p : Pat) (ps : List Pat) (hp : Spec F C p) (hps : SpecL F C ps) :
+    SpecL F C (p :: ps) := by
   intro c i lf ρ ys hlen hidx hnr
   cases ys with
   | nil => simp at hlen
@@ -331,7 +333,7 @@ theorem specL_cons (F : FloatOps) (p : Pat) (ps : List Pat) (hp : Spec F p) (hps
       rw [(hps c (i + 1) lf (ρ.apply β₁) ys' hlen' hidx' hnr.2).1 β₂ h2, apply_append]
     · intro ρ' h
       simp only [mPats] at h
-      cases hr : mPat F true p (lf && ps.isEmpty) (.elem (.tmp c) i) ρ with
+      cases hr : mPat F C true p (lf && ps.isEmpty) (.elem (.tmp c) i) ρ with
       | ok ρ1 =>
         rw [hr] at h; simp only at h
         obtain ⟨β₁, h1, rfl⟩ := sp.2.1 ρ1 hr
@@ -342,7 +344,7 @@ theorem specL_cons (F : FloatOps) (p : Pat) (ps : List Pat) (hp : Spec F p) (hps
       | err e => rw [hr] at h; simp at h
     · intro ρ' h
       simp only [mPats] at h
-      cases hr : mPat F true p (lf && ps.isEmpty) (.elem (.tmp c) i) ρ with
+      cases hr : mPat F C true p (lf && ps.isEmpty) (.elem (.tmp c) i) ρ with
       | ok ρ1 =>
         rw [hr] at h; simp only at h
         exact (hps c (i + 1) lf ρ1 ys' hlen' hidx' hnr.2).2.2 ρ' h
@@ -354,65 +356,65 @@ theorem specL_cons (F : FloatOps) (p : Pat) (ps : List Pat) (hp : Spec F p) (hps
 
 theorem mPat_exact (F : FloatOps) (la il : Bool) (pre : List Pat) (a : Acc) (ρ : Env) (s : Src)
     (hpre : pre ≠ []) (hc : container ρ a = .ok s) :
-    mPat F la (.seq pre none []) il a ρ =
-      (match sizeCheck (s.rd ρ) pre.length false with
+    mPat F C la (.seq pre none []) il a ρ =
+      (match sizeCheck C (s.rd ρ) pre.length false with
        | .error e => .err e
        | .ok false => .fail ρ
-       | .ok true => mPats F la pre s 0 true ρ) := by
+       | .ok true => mPats F C la pre s 0 (if C.nestedLast then il else true) ρ) := by
   have : pre.length ≠ 0 := by simpa using hpre
   simp [mPat, hc, restCount, this]
-  cases sizeCheck (s.rd ρ) pre.length false with
+  cases sizeCheck C (s.rd ρ) pre.length false with
   | error e => rfl
   | ok b => cases b <;> rfl
 
 theorem mPat_trailing (F : FloatOps) (la il : Bool) (pre : List Pat) (r : Option Name) (a : Acc)
     (ρ : Env) (s : Src) (hc : container ρ a = .ok s) :
-    mPat F la (.seq pre (some r) []) il a ρ =
-      (match sizeCheck (s.rd ρ) (pre.length + 1) true with
+    mPat F C la (.seq pre (some r) []) il a ρ =
+      (match sizeCheck C (s.rd ρ) (pre.length + 1) true with
        | .error e => .err e
        | .ok false => .fail ρ
        | .ok true =>
-         match mPats F la pre s 0 false ρ with
+         match mPats F C la pre s 0 false ρ with
          | .ok ρ1 =>
            (match r with
-            | none => fin la true ρ1
+            | none => fin la (if C.nestedLast then il else true) ρ1
             | some x =>
-              match sliceFrom (s.rd ρ1) pre.length with
+              match sliceFrom C (s.rd ρ1) pre.length with
               | .error e => .err e
-              | .ok v => fin la true (ρ1.set x v))
+              | .ok v => fin la (if C.nestedLast then il else true) (ρ1.set x v))
          | r' => r') := by
   simp [mPat, hc, restCount]
-  cases sizeCheck (s.rd ρ) (pre.length + 1) true with
+  cases sizeCheck C (s.rd ρ) (pre.length + 1) true with
   | error e => rfl
   | ok b =>
     cases b with
     | false => rfl
     | true =>
       simp only
-      cases mPats F la pre s 0 false ρ with
+      cases mPats F C la pre s 0 false ρ with
       | ok ρ1 =>
         cases r with
         | none => rfl
-        | some x => simp only; cases sliceFrom (s.rd ρ1) (pre.length : Int) <;> rfl
+        | some x => simp only; cases sliceFrom C (s.rd ρ1) (pre.length : Int) <;> rfl
       | done _ => rfl
       | fail _ => rfl
       | err _ => rfl
 
 theorem mPat_leading (F : FloatOps) (la il : Bool) (post : List Pat) (r : Option Name) (a : Acc)
     (ρ : Env) (s : Src) (hpost : post ≠ []) (hc : container ρ a = .ok s) :
-    mPat F la (.seq [] (some r) post) il a ρ =
-      (match sizeCheck (s.rd ρ) (1 + post.length) true with
+    mPat F C la (.seq [] (some r) post) il a ρ =
+      (match sizeCheck C (s.rd ρ) (1 + post.length) true with
        | .error e => .err e
        | .ok false => .fail ρ
        | .ok true =>
          match (match r with
                 | none => Except.ok ρ
-                | some x => (sliceTo (s.rd ρ) (-(post.length : Int))).map (ρ.set x)) with
+                | some x => (sliceTo C (s.rd ρ) (-(post.length : Int))).map (ρ.set x)) with
          | .error e => .err e
-         | .ok ρ1 => mPats F la post s (-(post.length : Int)) true ρ1) := by
+         | .ok ρ1 => mPats F C la post s (-(post.length : Int)) (if C.nestedLast then il else true) ρ1) := by
   have h1 : post.isEmpty = false := by cases post <;> simp_all
   simp [mPat, hc, restCount, h1]
-  cases sizeCheck (s.rd ρ) (1 + post.length) true with
+  cases sizeCheck C (s.rd ρ) (1 + post.length) true with
   | error e => rfl
   | ok b =>
     cases b with
@@ -421,7 +423,7 @@ theorem mPat_leading (F : FloatOps) (la il : Bool) (post : List Pat) (r : Option
       simp only
       cases r with
       | none => rfl
-      | some x => simp only; cases sliceTo (s.rd ρ) (-(post.length : Int)) <;> rfl
+      | some x => simp only; cases sliceTo C (s.rd ρ) (-(post.length : Int)) <;> rfl
 
 @[simp] theorem restWrites_none (v : Val) : restWrites none v = [] := rfl
 @[simp] theorem restWrites_anon (v : Val) : restWrites (some none) v = [] := rfl
@@ -430,8 +432,8 @@ theorem mPat_leading (F : FloatOps) (la il : Bool) (post : List Pat) (r : Option
 theorem DeclAll_nil_iff {F : FloatOps} {ys : List Val} {β : Writes} :
     DeclAll F [] ys β ↔ ys = [] ∧ β = [] := by simp [DeclAll]
 
-theorem spec_exact (F : FloatOps) (pre : List Pat) (hpre : pre ≠ []) (hs : SpecL F pre) :
-    Spec F (.seq pre none []) := by
+theorem spec_exact (F : FloatOps) (pre : List Pat) (hpre : pre ≠ []) (hs : SpecL F C pre) :
+    Spec F C (.seq pre none []) := by
   intro il a ρ v hr hnr
   rw [mPat_exact F true il pre a ρ (.tmp v) hpre (hr.container ρ)]
   simp only [Src.rd, Decl]
@@ -444,7 +446,7 @@ theorem spec_exact (F : FloatOps) (pre : List Pat) (hpre : pre ≠ []) (hs : Spe
     have hidx : ∀ j (h : j < xs.length), tempIndex v ((0 : Int) + (j : Int)) = .ok xs[j] := by
       intro j h; simpa using view_index hv j h
     by_cases hl : xs.length = pre.length
-    · have sp := hs v 0 true ρ xs hl hidx (view_noRange hv hnr)
+    · have sp := hs v 0 (if C.nestedLast then il else true) ρ xs hl hidx (view_noRange hv hnr)
       simp only [hl, beq_self_eq_true]
       refine ⟨?_, ?_, sp.2.2⟩
       · rintro β ⟨xs', sl', a', mid, b, β₁, β₂, hv', hx, hm, h1, h2, rfl⟩
@@ -470,8 +472,8 @@ theorem spec_exact (F : FloatOps) (pre : List Pat) (hpre : pre ≠ []) (hs : Spe
       simp only [List.append_nil] at hx; subst hx
       exact absurd (DeclAll_length _ _ _ h1) hl
 
-theorem spec_trailing (F : FloatOps) (pre : List Pat) (r : Option Name) (hs : SpecL F pre) :
-    Spec F (.seq pre (some r) []) := by
+theorem spec_trailing (F : FloatOps) (pre : List Pat) (r : Option Name) (hs : SpecL F C pre) :
+    Spec F C (.seq pre (some r) []) := by
   intro il a ρ v hr hnr
   rw [mPat_trailing F true il pre r a ρ (.tmp v) (hr.container ρ)]
   simp only [Src.rd, Decl]
@@ -507,7 +509,7 @@ theorem spec_trailing (F : FloatOps) (pre : List Pat) (r : Option Name) (hs : Sp
         | none => simp
         | some x => simp [hsl, apply_append, ha, ← hlen2]
       · intro ρ' h
-        cases hm : mPats F true pre (.tmp v) 0 false ρ with
+        cases hm : mPats F C true pre (.tmp v) 0 false ρ with
         | ok ρ1 =>
           rw [hm] at h
           obtain ⟨β₁, h1, rfl⟩ := sp.2.1 ρ1 hm
@@ -528,7 +530,7 @@ theorem spec_trailing (F : FloatOps) (pre : List Pat) (r : Option Name) (hs : Sp
         | fail ρ1 => rw [hm] at h; simp at h
         | err e => rw [hm] at h; simp at h
       · intro ρ' h
-        cases hm : mPats F true pre (.tmp v) 0 false ρ with
+        cases hm : mPats F C true pre (.tmp v) 0 false ρ with
         | ok ρ1 =>
           rw [hm] at h
           cases r with
@@ -548,7 +550,7 @@ theorem spec_trailing (F : FloatOps) (pre : List Pat) (r : Option Name) (hs : Sp
       omega
 
 theorem spec_leading (F : FloatOps) (post : List Pat) (r : Option Name) (hpost : post ≠ [])
-    (hs : SpecL F post) : Spec F (.seq [] (some r) post) := by
+    (hs : SpecL F C post) : Spec F C (.seq [] (some r) post) := by
   intro il a ρ v hr hnr
   rw [mPat_leading F true il post r a ρ (.tmp v) hpost (hr.container ρ)]
   simp only [Src.rd, Decl]
@@ -572,7 +574,7 @@ theorem spec_leading (F : FloatOps) (post : List Pat) (r : Option Name) (hpost :
         congr 2; omega
       have hsl := view_sliceTo hv post.length hq hl
       have key : ∀ ρ1 : Env, _ := fun ρ1 =>
-        hs v (-(post.length : Int)) true ρ1 (xs.drop (xs.length - post.length)) hlen hidx
+        hs v (-(post.length : Int)) (if C.nestedLast then il else true) ρ1 (xs.drop (xs.length - post.length)) hlen hidx
           (noRangeL_drop _ _ (view_noRange hv hnr))
       refine ⟨?_, ?_, ?_⟩
       · rintro β ⟨xs', sl', a', mid, b, β₁, β₂, hv', hx, _, h1, h2, rfl⟩
@@ -626,8 +628,8 @@ theorem spec_leading (F : FloatOps) (post : List Pat) (r : Option Name) (hpost :
       omega
 
 theorem spec_seq (F : FloatOps) (pre : List Pat) (rest : Option (Option Name)) (post : List Pat)
-    (hw : wf (.seq pre rest post) = true) (h1 : SpecL F pre) (h2 : SpecL F post) :
-    Spec F (.seq pre rest post) := by
+    (hw : wf (.seq pre rest post) = true) (h1 : SpecL F C pre) (h2 : SpecL F C post) :
+    Spec F C (.seq pre rest post) := by
   simp only [wf, Bool.and_eq_true, Bool.or_eq_true, decide_eq_true_eq, List.isEmpty_iff] at hw
   obtain ⟨⟨⟨hshape, hn⟩, _⟩, _⟩ := hw
   cases rest with
@@ -646,7 +648,7 @@ theorem spec_seq (F : FloatOps) (pre : List Pat) (rest : Option (Option Name)) (
       · exact spec_leading F (q :: qs) r (by simp) h2
 
 mutual
-theorem spec_pat (F : FloatOps) : ∀ (p : Pat), wf p = true → Spec F p
+theorem spec_pat (F : FloatOps) : ∀ (p : Pat), wf p = true → Spec F C p
   | .lit l, _ => spec_lit F l
   | .id x ty, _ => spec_id F x ty
   | .wild ty, _ => spec_wild F ty
@@ -655,7 +657,7 @@ theorem spec_pat (F : FloatOps) : ∀ (p : Pat), wf p = true → Spec F p
     spec_seq F pre rest post h
       (spec_pats F pre (by simp only [wf, Bool.and_eq_true] at h; exact h.1.2))
       (spec_pats F post (by simp only [wf, Bool.and_eq_true] at h; exact h.2))
-theorem spec_pats (F : FloatOps) : ∀ (ps : List Pat), wfL ps = true → SpecL F ps
+theorem spec_pats (F : FloatOps) : ∀ (ps : List Pat), wfL ps = true → SpecL F C ps
   | [], _ => specL_nil F
   | p :: ps, h =>
     specL_cons F p ps
@@ -719,17 +721,17 @@ def noSeqL : List Pat → Bool
 /-- in a non-last position a pattern that is not parenthesised behaves the same in every
 alternative -/
 theorem mPat_false_eq (F : FloatOps) (p : Pat) (a : Acc) (ρ : Env) (h : notSeq p = true) :
-    mPat F false p false a ρ = mPat F true p false a ρ := by
+    mPat F C false p false a ρ = mPat F C true p false a ρ := by
   cases p <;> simp [mPat, fin, notSeq] at *
 
 theorem mPats_false_eq (F : FloatOps) : ∀ (ps : List Pat) (s : Src) (i : Int) (ρ : Env),
-    noSeqL ps = true → mPats F false ps s i false ρ = mPats F true ps s i false ρ
+    noSeqL ps = true → mPats F C false ps s i false ρ = mPats F C true ps s i false ρ
   | [], _, _, _, _ => by simp [mPats]
   | p :: ps, s, i, ρ, h => by
     simp only [noSeqL, Bool.and_eq_true] at h
     simp only [mPats, Bool.false_and]
     rw [mPat_false_eq F p _ ρ h.1]
-    cases mPat F true p false (.elem s i) ρ <;> simp [mPats_false_eq F ps s (i + 1) _ h.2]
+    cases mPat F C true p false (.elem s i) ρ <;> simp [mPats_false_eq F ps s (i + 1) _ h.2]
 
 theorem wf_notSeq (p : Pat) (hw : wf p = true) (h : isSeqNonEmpty p = false) : notSeq p = true := by
   cases p with
@@ -755,28 +757,28 @@ theorem earlyFreeL_false_noSeq : ∀ (ps : List Pat), wfL ps = true → earlyFre
     exact ih
 
 /-- success of a whole pattern in a non-last alternative = the jump to `match_end` -/
-def SpecN (F : FloatOps) (p : Pat) : Prop :=
+def SpecN (F : FloatOps) (C : Cfg) (p : Pat) : Prop :=
   ∀ (a : Acc) (ρ : Env) (v : Val), Reads a v → noRange v = true →
-    (∀ β, Decl F p v β → mPat F false p true a ρ = .done (ρ.apply β)) ∧
-    (∀ ρ', mPat F false p true a ρ = .done ρ' → ∃ β, Decl F p v β ∧ ρ' = ρ.apply β)
+    (∀ β, Decl F p v β → mPat F C false p true a ρ = .done (ρ.apply β)) ∧
+    (∀ ρ', mPat F C false p true a ρ = .done ρ' → ∃ β, Decl F p v β ∧ ρ' = ρ.apply β)
 
-def SpecNL (F : FloatOps) (ps : List Pat) : Prop :=
+def SpecNL (F : FloatOps) (C : Cfg) (ps : List Pat) : Prop :=
   ∀ (c : Val) (i : Int) (ρ : Env) (ys : List Val), ys.length = ps.length →
     (∀ j (h : j < ys.length), tempIndex c (i + (j : Int)) = .ok ys[j]) → noRangeL ys = true →
-    (∀ β, DeclAll F ps ys β → mPats F false ps (.tmp c) i true ρ = .done (ρ.apply β)) ∧
-    (∀ ρ', mPats F false ps (.tmp c) i true ρ = .done ρ' → ∃ β, DeclAll F ps ys β ∧ ρ' = ρ.apply β)
+    (∀ β, DeclAll F ps ys β → mPats F C false ps (.tmp c) i true ρ = .done (ρ.apply β)) ∧
+    (∀ ρ', mPats F C false ps (.tmp c) i true ρ = .done ρ' → ∃ β, DeclAll F ps ys β ∧ ρ' = ρ.apply β)
 
-theorem specN_lit (F : FloatOps) (l : Lit) : SpecN F (.lit l) := by
+theorem specN_lit (F : FloatOps) (l : Lit) : SpecN F C (.lit l) := by
   intro a ρ v hr _
   simp only [mPat, hr.fetch, Decl, fin]
   cases h : litEq F l v <;> simp [eq_comm]
 
-theorem specN_id (F : FloatOps) (x : Name) (ty : Option Ty) : SpecN F (.id x ty) := by
+theorem specN_id (F : FloatOps) (x : Name) (ty : Option Ty) : SpecN F C (.id x ty) := by
   intro a ρ v hr _
   simp only [mPat, hr.fetch, Decl, fin]
   cases h : tyFail ty v <;> simp [eq_comm]
 
-theorem specN_wild (F : FloatOps) (ty : Option Ty) : SpecN F (.wild ty) := by
+theorem specN_wild (F : FloatOps) (ty : Option Ty) : SpecN F C (.wild ty) := by
   intro a ρ v hr _
   cases ty with
   | none => simp [mPat, Decl, fin, tyFail, eq_comm]
@@ -784,15 +786,15 @@ theorem specN_wild (F : FloatOps) (ty : Option Ty) : SpecN F (.wild ty) := by
     simp only [mPat, hr.fetch, Decl, fin, tyFail]
     cases h : tyOk t v <;> simp [eq_comm]
 
-theorem specN_map (F : FloatOps) (es : List Ent) (ty : Option Ty) : SpecN F (.map es ty) := by
+theorem specN_map (F : FloatOps) (es : List Ent) (ty : Option Ty) : SpecN F C (.map es ty) := by
   intro a ρ v hr _
-  have hm := mEnts_spec es v ρ
+  have hm := mEnts_spec (C := C) es v ρ
   simp only [mPat, hr.container, Src.rd, Decl, fin]
   by_cases h : tyFail ty v = true
   · simp [h]
   · have h' : tyFail ty v = false := by simpa using h
     simp only [h', Bool.false_eq_true, if_false, true_and]
-    cases hr' : mEnts es (.tmp v) ρ with
+    cases hr' : mEnts C es (.tmp v) ρ with
     | ok ρ1 =>
       simp only [Bool.not_false, Bool.and_self, if_true, R.done.injEq]
       constructor
@@ -812,7 +814,7 @@ theorem specN_map (F : FloatOps) (es : List Ent) (ty : Option Ty) : SpecN F (.ma
       have := hm.1 β hd
       rw [hr'] at this; cases this
 
-theorem specNL_single (F : FloatOps) (p : Pat) (hp : SpecN F p) : SpecNL F [p] := by
+theorem specNL_single (F : FloatOps) (p : Pat) (hp : SpecN F C p) : SpecNL F C [p] := by
   intro c i ρ ys hlen hidx hnr
   cases ys with
   | nil => simp at hlen
@@ -834,7 +836,7 @@ theorem specNL_single (F : FloatOps) (p : Pat) (hp : SpecN F p) : SpecNL F [p] :
       obtain ⟨rfl, _⟩ := heq
       simp [sp.1 β₁ h1]
     · intro ρ' h
-      cases hr : mPat F false p true (.elem (.tmp c) i) ρ with
+      cases hr : mPat F C false p true (.elem (.tmp c) i) ρ with
       | ok ρ1 => rw [hr] at h; simp [mPats] at h
       | done ρ1 =>
         rw [hr] at h; simp only [R.done.injEq] at h; subst h
@@ -843,8 +845,8 @@ theorem specNL_single (F : FloatOps) (p : Pat) (hp : SpecN F p) : SpecNL F [p] :
       | fail ρ1 => rw [hr] at h; simp at h
       | err e => rw [hr] at h; simp at h
 
-theorem specNL_cons (F : FloatOps) (p q : Pat) (ps : List Pat) (hn : notSeq p = true) (hp : Spec F p)
-    (hps : SpecNL F (q :: ps)) : SpecNL F (p :: q :: ps) := by
+theorem specNL_cons (F : FloatOps) (p q : Pat) (ps : List Pat) (hn : notSeq p = true) (hp : Spec F C p)
+    (hps : SpecNL F C (q :: ps)) : SpecNL F C (p :: q :: ps) := by
   intro c i ρ ys hlen hidx hnr
   cases ys with
   | nil => simp at hlen
@@ -861,8 +863,8 @@ theorem specNL_cons (F : FloatOps) (p q : Pat) (ps : List Pat) (hn : notSeq p = 
       simp only [List.getElem_cons_succ] at this
       rw [← this]; congr 1; push_cast; omega
     have sp := hp false (.elem (.tmp c) i) ρ y hy hnr.1
-    have e : mPat F false p (true && (q :: ps).isEmpty) (.elem (.tmp c) i) ρ
-        = mPat F true p false (.elem (.tmp c) i) ρ := by
+    have e : mPat F C false p (true && (q :: ps).isEmpty) (.elem (.tmp c) i) ρ
+        = mPat F C true p false (.elem (.tmp c) i) ρ := by
       simpa using mPat_false_eq F p _ ρ hn
     constructor
     · intro β hd
@@ -875,7 +877,7 @@ theorem specNL_cons (F : FloatOps) (p q : Pat) (ps : List Pat) (hn : notSeq p = 
       rw [(hps c (i + 1) (ρ.apply β₁) ys' hlen' hidx' hnr.2).1 β₂ (by simpa only [DeclAll] using h2), apply_append]
     · intro ρ' h
       rw [mPats, e] at h
-      cases hr : mPat F true p false (.elem (.tmp c) i) ρ with
+      cases hr : mPat F C true p false (.elem (.tmp c) i) ρ with
       | ok ρ1 =>
         rw [hr] at h; simp only at h
         obtain ⟨β₁, h1, rfl⟩ := sp.2.1 ρ1 hr
@@ -886,8 +888,8 @@ theorem specNL_cons (F : FloatOps) (p q : Pat) (ps : List Pat) (hn : notSeq p = 
       | fail ρ1 => rw [hr] at h; simp at h
       | err e' => rw [hr] at h; simp at h
 
-theorem specN_exact (F : FloatOps) (pre : List Pat) (hpre : pre ≠ []) (hs : SpecNL F pre) :
-    SpecN F (.seq pre none []) := by
+theorem specN_exact (F : FloatOps) (pre : List Pat) (hpre : pre ≠ []) (hs : SpecNL F C pre) :
+    SpecN F C (.seq pre none []) := by
   intro a ρ v hr hnr
   rw [mPat_exact F false true pre a ρ (.tmp v) hpre (hr.container ρ)]
   simp only [Src.rd, Decl]
@@ -927,8 +929,8 @@ theorem specN_exact (F : FloatOps) (pre : List Pat) (hpre : pre ≠ []) (hs : Sp
 
 @[simp] theorem fin_false_true (ρ : Env) : fin false true ρ = .done ρ := by simp [fin]
 
-theorem specN_trailing (F : FloatOps) (pre : List Pat) (r : Option Name) (hs : SpecL F pre)
-    (hns : noSeqL pre = true) : SpecN F (.seq pre (some r) []) := by
+theorem specN_trailing (F : FloatOps) (pre : List Pat) (r : Option Name) (hs : SpecL F C pre)
+    (hns : noSeqL pre = true) : SpecN F C (.seq pre (some r) []) := by
   intro a ρ v hr hnr
   rw [mPat_trailing F false true pre r a ρ (.tmp v) (hr.container ρ), mPats_false_eq F pre _ _ _ hns]
   simp only [Src.rd, Decl]
@@ -964,7 +966,7 @@ theorem specN_trailing (F : FloatOps) (pre : List Pat) (r : Option Name) (hs : S
         | none => simp
         | some x => simp [hsl, apply_append, ha, ← hlen2]
       · intro ρ' h
-        cases hm : mPats F true pre (.tmp v) 0 false ρ with
+        cases hm : mPats F C true pre (.tmp v) 0 false ρ with
         | ok ρ1 =>
           rw [hm] at h
           obtain ⟨β₁, h1, rfl⟩ := sp.2.1 ρ1 hm
@@ -995,7 +997,7 @@ theorem specN_trailing (F : FloatOps) (pre : List Pat) (r : Option Name) (hs : S
       omega
 
 theorem specN_leading (F : FloatOps) (post : List Pat) (r : Option Name) (hpost : post ≠ [])
-    (hs : SpecNL F post) : SpecN F (.seq [] (some r) post) := by
+    (hs : SpecNL F C post) : SpecN F C (.seq [] (some r) post) := by
   intro a ρ v hr hnr
   rw [mPat_leading F false true post r a ρ (.tmp v) hpost (hr.container ρ)]
   simp only [Src.rd, Decl]
@@ -1069,7 +1071,7 @@ theorem specN_leading (F : FloatOps) (post : List Pat) (r : Option Name) (hpost 
       omega
 
 mutual
-theorem specN_pat (F : FloatOps) : ∀ (p : Pat), wf p = true → earlyFree p = true → SpecN F p
+theorem specN_pat (F : FloatOps) : ∀ (p : Pat), wf p = true → earlyFree p = true → SpecN F C p
   | .lit l, _, _ => specN_lit F l
   | .id x ty, _, _ => specN_id F x ty
   | .wild ty, _, _ => specN_wild F ty
@@ -1097,7 +1099,7 @@ theorem specN_pat (F : FloatOps) : ∀ (p : Pat), wf p = true → earlyFree p = 
         | none => simp at hr
         | some r => exact specN_leading F (q :: qs) r (by simp) (specN_pats F (q :: qs) hwpost he.2 (by simp))
 theorem specN_pats (F : FloatOps) : ∀ (ps : List Pat), wfL ps = true → earlyFreeL ps true = true →
-    ps ≠ [] → SpecNL F ps
+    ps ≠ [] → SpecNL F C ps
   | [], _, _, h => absurd rfl h
   | [p], hw, he, _ => by
     simp only [wfL, Bool.and_eq_true] at hw
@@ -1148,7 +1150,7 @@ theorem within_fin (xs : List Name) (ρ ρ' : Env) (la il : Bool) (h : Agree xs 
     Within xs ρ (fin la il ρ') := by
   unfold fin; split <;> exact h
 
-theorem frame_ents : ∀ (es : List Ent) (s : Src) (ρ : Env), Within (entVars es) ρ (mEnts es s ρ)
+theorem frame_ents : ∀ (es : List Ent) (s : Src) (ρ : Env), Within (entVars es) ρ (mEnts C es s ρ)
   | [], _, ρ => by simp [mEnts, Within, Agree.refl]
   | e :: es, s, ρ => by
     simp only [mEnts]
@@ -1166,7 +1168,7 @@ theorem frame_ents : ∀ (es : List Ent) (s : Src) (ρ : Env), Within (entVars e
 
 mutual
 theorem frame_pat (F : FloatOps) : ∀ (p : Pat) (la il : Bool) (a : Acc) (ρ : Env),
-    Within (patVars p) ρ (mPat F la p il a ρ)
+    Within (patVars p) ρ (mPat F C la p il a ρ)
   | .lit l, la, il, a, ρ => by
     simp only [mPat]
     split
@@ -1253,7 +1255,7 @@ theorem frame_pat (F : FloatOps) : ∀ (p : Pat) (la il : Bool) (a : Acc) (ρ : 
                   | none => simp only at hρ1; cases hρ1; exact Agree.refl _ _
                   | some x =>
                     simp only at hρ1
-                    cases hs : sliceTo (s.rd ρ) (-(post.length : Int)) with
+                    cases hs : sliceTo C (s.rd ρ) (-(post.length : Int)) with
                     | error e => rw [hs] at hρ1; cases hρ1
                     | ok w =>
                       rw [hs] at hρ1
@@ -1262,7 +1264,7 @@ theorem frame_pat (F : FloatOps) : ∀ (p : Pat) (la il : Bool) (a : Acc) (ρ : 
                       exact (Agree.refl _ ρ).set x w (by simp [patVars])
                 exact Within.trans h1 ((frame_pats F post la s _ true ρ1).mono hpost)
 theorem frame_pats (F : FloatOps) : ∀ (ps : List Pat) (la : Bool) (s : Src) (i : Int) (lf : Bool) (ρ : Env),
-    Within (patsVars ps) ρ (mPats F la ps s i lf ρ)
+    Within (patsVars ps) ρ (mPats F C la ps s i lf ρ)
   | [], _, _, _, _, ρ => by simp [mPats, Within, Agree.refl]
   | p :: ps, la, s, i, lf, ρ => by
     have h := (frame_pat F p la (lf && ps.isEmpty) (.elem s i) ρ).mono
